@@ -75,6 +75,32 @@ Definition write_u16 (n : N) : bytes := [(n / 256) mod 256; n mod 256].
 Definition write_i32 (n : N) : bytes := [(n / 16777216) mod 256; (n / 65536) mod 256; (n / 256) mod 256; n mod 256].
 Definition write_utf (s : bytes) : bytes := write_u16 (N.of_nat (List.length s)) ++ s.
 
+(* a response body is a sequence of DataOutput fields *)
+Inductive field := FUtf (s : bytes) | FInt (n : N) | FShort (n : N).
+Fixpoint encode (fs : list field) : bytes :=
+  match fs with
+  | [] => []
+  | FUtf s :: r => write_utf s ++ encode r
+  | FInt n :: r => write_i32 n ++ encode r
+  | FShort n :: r => write_u16 n ++ encode r
+  end.
+Inductive fkind := KUtf | KInt | KShort.
+Definition kind_of (f : field) : fkind := match f with FUtf _ => KUtf | FInt _ => KInt | FShort _ => KShort end.
+(* reading a body back with DataInput primitives, field kinds given; all bytes must be consumed *)
+Fixpoint decode (ks : list fkind) (bs : bytes) : option (list field) :=
+  match ks with
+  | [] => match bs with [] => Some [] | _ => None end
+  | KUtf :: r => match read_utf bs with
+                 | Some (s, rest) => match decode r rest with Some fs => Some (FUtf s :: fs) | None => None end
+                 | None => None end
+  | KInt :: r => match read_i32 bs with
+                 | Some (n, rest) => match decode r rest with Some fs => Some (FInt n :: fs) | None => None end
+                 | None => None end
+  | KShort :: r => match bs with
+                   | a :: b :: rest => match decode r rest with Some fs => Some (FShort (a * 256 + b) :: fs) | None => None end
+                   | _ => None end
+  end.
+
 (* joiner{split: ", "} *)
 Fixpoint join (l : list bytes) : bytes :=
   match l with
@@ -145,6 +171,51 @@ Fixpoint lookup (o : list (bytes * option bytes)) (t : bytes) : option (option b
 
 Definition cur_server_name (req : player) : bytes := match p_server req with Some n => n | None => [] end.
 
+(* the fields of the answer of the query sub-channels (None: no answer) *)
+Definition response_fields (F : flags) (st : pstate) (req : player) (s : sub) (a : bytes) : option (list field) :=
+  match s with
+  | SIP => Some [FUtf (sub_name SIP); FUtf (p_host req); FInt (p_port req)]
+  | SIPOther =>
+    match read_utf a with None => None | Some (pn, _) =>
+    match find_player (players st) pn with None => None | Some p =>
+      Some [FUtf (sub_name SIPOther); FUtf (p_name p); FUtf (p_host p); FInt (p_port p)] end end
+  | SUUID => Some [FUtf (sub_name SUUID); FUtf (p_uuid req)]
+  | SUUIDOther =>
+    match read_utf a with None => None | Some (pn, _) =>
+    match find_player (players st) pn with None => None | Some p =>
+      Some [FUtf (sub_name SUUIDOther); FUtf (p_name p); FUtf (p_uuid p)] end end
+  | SPlayerCount =>
+    match read_utf a with None => None | Some (tg, _) =>
+      if eq_fold tg s_ALL then
+        Some [FUtf (sub_name SPlayerCount); FUtf s_ALL; FInt (N.of_nat (List.length (players st)))]
+      else match find_server (servers st) tg with None => None | Some sv =>
+        Some [FUtf (sub_name SPlayerCount); FUtf (s_name sv); FInt (N.of_nat (List.length (players_on st (s_name sv))))] end
+    end
+  | SPlayerList =>
+    match read_utf a with None => None | Some (tg, _) =>
+      if beq_bytes tg s_ALL then
+        Some [FUtf (sub_name SPlayerList); FUtf s_ALL; FUtf (join (map p_name (players st)))]
+      else match find_server (servers st) tg with None => None | Some sv =>
+        Some [FUtf (sub_name SPlayerList); FUtf (s_name sv); FUtf (join (map p_name (players_on st (s_name sv))))] end
+    end
+  | SGetServers => Some [FUtf (sub_name SGetServers); FUtf (join (map s_name (servers st)))]
+  | SGetServer =>
+    match p_server req with None => None | Some sn => Some [FUtf (sub_name SGetServer); FUtf sn] end
+  | SServerIP =>
+    match read_utf a with None => None | Some (sn, _) =>
+    match find_server (servers st) sn with None => None | Some sv =>
+      Some [FUtf (sub_name SServerIP); FUtf (s_name sv); FUtf (s_host sv); FShort (s_port sv mod 65536)] end end
+  | SGetPlayerServer =>
+    match read_utf a with None => None | Some (pn, _) =>
+    match find_player (players st) pn with None => None | Some p =>
+      match p_server req with None => None | Some _ =>   (* the answer always travels on the requester's connection *)
+      match p_server (if f3 F then p else req) with None => None | Some sn =>
+        Some [FUtf (sub_name SGetPlayerServer); FUtf (p_name p); FUtf sn]
+      end end
+    end end
+  | _ => None
+  end.
+
 Definition run_sub (F : flags) (st : pstate) (req : player) (oracle : list (bytes * option bytes))
            (s : sub) (a : bytes) : list effect :=
   match s with
@@ -177,37 +248,6 @@ Definition run_sub (F : flags) (st : pstate) (req : player) (oracle : list (byte
     match find_player (players st) pn with None => [] | Some p =>
     match read_utf r with None => [] | Some (sn, _) =>
     match find_server (servers st) sn with None => [] | Some sv => [EConnect (p_name p) (s_name sv)] end end end end
-  | SIP => respond req (write_utf (sub_name SIP) ++ write_utf (p_host req) ++ write_i32 (p_port req))
-  | SIPOther =>
-    match read_utf a with None => [] | Some (pn, _) =>
-    match find_player (players st) pn with None => [] | Some p =>
-      respond req (write_utf (sub_name SIPOther) ++ write_utf (p_name p) ++ write_utf (p_host p) ++ write_i32 (p_port p))
-    end end
-  | SUUID => respond req (write_utf (sub_name SUUID) ++ write_utf (p_uuid req))
-  | SUUIDOther =>
-    match read_utf a with None => [] | Some (pn, _) =>
-    match find_player (players st) pn with None => [] | Some p =>
-      respond req (write_utf (sub_name SUUIDOther) ++ write_utf (p_name p) ++ write_utf (p_uuid p))
-    end end
-  | SPlayerCount =>
-    match read_utf a with None => [] | Some (tg, _) =>
-      if eq_fold tg s_ALL then
-        respond req (write_utf (sub_name SPlayerCount) ++ write_utf s_ALL ++ write_i32 (N.of_nat (List.length (players st))))
-      else match find_server (servers st) tg with None => [] | Some sv =>
-        respond req (write_utf (sub_name SPlayerCount) ++ write_utf (s_name sv) ++
-                     write_i32 (N.of_nat (List.length (players_on st (s_name sv))))) end
-    end
-  | SPlayerList =>
-    match read_utf a with None => [] | Some (tg, _) =>
-      if beq_bytes tg s_ALL then
-        respond req (write_utf (sub_name SPlayerList) ++ write_utf s_ALL ++ write_utf (join (map p_name (players st))))
-      else match find_server (servers st) tg with None => [] | Some sv =>
-        respond req (write_utf (sub_name SPlayerList) ++ write_utf (s_name sv) ++
-                     write_utf (join (map p_name (players_on st (s_name sv))))) end
-    end
-  | SGetServers => respond req (write_utf (sub_name SGetServers) ++ write_utf (join (map s_name (servers st))))
-  | SGetServer =>
-    match p_server req with None => [] | Some sn => respond req (write_utf (sub_name SGetServer) ++ write_utf sn) end
   | SMessage | SMessageRaw =>
     match read_utf a with None => [] | Some (tg, r) =>
     match read_utf r with None => [] | Some (txt, _) =>
@@ -224,11 +264,6 @@ Definition run_sub (F : flags) (st : pstate) (req : player) (oracle : list (byte
         | None => [EPanic]                               (* method call on a nil Server interface *)
         end
     end end end
-  | SServerIP =>
-    match read_utf a with None => [] | Some (sn, _) =>
-    match find_server (servers st) sn with None => [] | Some sv =>
-      respond req (write_utf (sub_name SServerIP) ++ write_utf (s_name sv) ++ write_utf (s_host sv) ++ write_u16 (s_port sv))
-    end end
   | SKickPlayer | SKickPlayerRaw =>
     match read_utf a with None => [] | Some (pn, r) =>
     match find_player (players st) pn with None => [] | Some p =>
@@ -238,15 +273,8 @@ Definition run_sub (F : flags) (st : pstate) (req : player) (oracle : list (byte
     | Some None => [EKick (p_name p) []]                 (* fallback to a blank reason *)
     | Some (Some plain) => [EKick (p_name p) plain]
     end end end end
-  | SGetPlayerServer =>
-    match read_utf a with None => [] | Some (pn, _) =>
-    match find_player (players st) pn with None => [] | Some p =>
-      match p_server req with None => [] | Some _ =>    (* the answer always travels on the requester's connection *)
-      match p_server (if f3 F then p else req) with None => [] | Some sn =>
-        respond req (write_utf (sub_name SGetPlayerServer) ++ write_utf (p_name p) ++ write_utf sn)
-      end end
-    end end
   | SUnknown => []
+  | _ => match response_fields F st req s a with Some fs => respond req (encode fs) | None => [] end
   end.
 
 (* Process: (handled?, effects) *)
